@@ -749,6 +749,8 @@ func DelClient(c Client) {
 	delete(g.clients, c.Id())
 	g.timestamp = time.Now()
 	clients := g.getClientsUnlocked(nil)
+	// must be called locked, and before any later join is evaluated
+	autoLockKick(g)
 	g.mu.Unlock()
 
 	c.Joined(g.Name(), "leave")
@@ -757,7 +759,6 @@ func DelClient(c Client) {
 			g.Name(), "delete", c.Id(), c.Username(), nil, nil,
 		)
 	}
-	autoLockKick(g)
 }
 
 func (g *Group) GetClients(except Client) []Client {
